@@ -35,7 +35,7 @@ def variant(name, shape="unit", fields=(), cindex=None, discr=None, skip=False, 
             "discr": [discr] if discr is not None else [], "skip": skip, "docs": [doc(x) for x in docs]}
 
 def decl(kind, name, shape="named", fields=(), variants=(), tparams=(), lifetimes=(), capture="absent", replace=(), docs=(), mods=(), inst=(), capture_text=None, consts=(), doc_attr=False, combined=False):
-    return {"consts": list(consts), "doc_attr": doc_attr, "combined": combined, "kind": kind, "name": name, "shape": shape, "fields": list(fields), "variants": list(variants),
+    return {"consts": list(consts), "doc_attr": doc_attr, "combined": combined, "doc_noise": False, "kind": kind, "name": name, "shape": shape, "fields": list(fields), "variants": list(variants),
             "tparams": [{"name": n, "skip": s} for n, s in tparams], "lifetimes": list(lifetimes), "capture": capture,
             "capture_text": capture_text or capture, "replace": [list(r) for r in replace], "docs": [doc(x) for x in docs], "mods": list(mods), "inst": list(inst)}
 
@@ -51,7 +51,7 @@ def from_plan(shape, feats, i, for_codec=True):
     if "generic" in F: tparams.append(("T", False)); inst.append(U16)
     if "skipped_param" in F: tparams.append(("U", True)); inst.append(BOOL)
     if "lifetime" in F: lifetimes.append("a")
-    fs = [field(nm("a"), U8, docs=([" field doc", "no space", "   three spaces"] if "docs" in F else ()))]
+    fs = [field(nm("a"), U8, docs=([" field doc", "no space", "   three spaces", "", " say \"hi\" {x} \\n 'q'"] if "docs" in F else ()))]
     fs.append(field(nm("b"), vec(opt(STR)), rename=("bee" if "rename" in F and named else None)))
     if "skip_field" in F: fs.insert(1, field(nm("s"), BOOL, skip=True))
     if "compact" in F: fs.append(field(nm("c"), U64, compact=True))
@@ -81,10 +81,13 @@ def from_plan(shape, feats, i, for_codec=True):
         # replacement text that is a later search text must not be substituted again
         replace = [["m1", "m2"], ["m2", "zz"], ["m2", "yy"], [name, "Renamed"]] if mods else [["d%d" % i, name], [name, "Renamed"], ["zzz", "q"]]
     style = dict(doc_attr="doc_attr_form" in F, combined="combined_attrs" in F)
+    noise = "docs" in F and "rename" in F
     if shape == "struct_unit":
         return decl("struct", name, "unit", (), (), tparams=[], lifetimes=[], capture=capture, capture_text=ctext, replace=replace, docs=docs, mods=mods, inst=[], **style)
     if shape != "enum":
-        return decl("struct", name, "named" if named else "unnamed", fs, (), tparams, lifetimes, capture, replace, docs, mods, inst, ctext, consts=consts, **style)
+        dd = decl("struct", name, "named" if named else "unnamed", fs, (), tparams, lifetimes, capture, replace, docs, mods, inst, ctext, consts=consts, **style)
+        dd["doc_noise"] = noise
+        return dd
     unn = [dict(f, name=[], rename=[]) for f in fs]
     vs = [variant("A", docs=([" variant doc"] if "docs" in F else ())),
           variant("B", "unnamed", unn[:2]),
@@ -99,7 +102,9 @@ def from_plan(shape, feats, i, for_codec=True):
         vs.append(variant("X", "unit", discr=42)); vs.append(variant("Y", "unit"))
         next(v for v in vs if v["name"] == "B")["discr"] = [33]
     if "codec_index" in F and "discriminant" in F: vs.append(variant("Z", "unit", cindex=9, discr=77))
-    return decl("enum", name, "named", (), vs, tparams, lifetimes, capture, replace, docs, mods, inst, ctext, consts=consts, **style)
+    dd = decl("enum", name, "named", (), vs, tparams, lifetimes, capture, replace, docs, mods, inst, ctext, consts=consts, **style)
+    dd["doc_noise"] = noise
+    return dd
 
 # ------------------------------------------------------------------------------------------------
 # seeded random declarations
@@ -142,6 +147,7 @@ def rand_decl(r, i, for_codec=True):
     d = rand_decl0(r, i, for_codec)
     d["doc_attr"] = r.random() < 0.2
     d["combined"] = r.random() < 0.3
+    d["doc_noise"] = r.random() < 0.3
     return d
 
 def rand_decl0(r, i, for_codec=True):
@@ -219,6 +225,10 @@ def src(t, d, subst=None, static=False, selfpath=None):
         return (selfpath or d["name"]) + ("<" + ", ".join(g) + ">" if g else "")
     raise ValueError(c)
 
+def lit(n, style):
+    """integer literal forms the attribute parsers must all understand"""
+    return [str(n), hex(n), "%du8" % n, "0b" + bin(n)[2:], ("%d_%d" % (n // 10, n % 10)) if n >= 10 else str(n)][style % 5]
+
 def docs_src(ds, ind, attr_form=False):
     if attr_form:      # the desugared form of a doc comment
         return "".join('%s#[doc = %s]\n' % (ind, json.dumps(" " * x["sp"] + x["text"])) for x in ds)
@@ -227,6 +237,7 @@ def docs_src(ds, ind, attr_form=False):
 
 def field_src(f, d, ind, pub, with_codec):
     s = docs_src(f["docs"], ind, d.get("doc_attr"))
+    if f["docs"] and d.get("doc_noise"): s += ind + "#[doc(hidden)]\n" + ind + "#[allow(dead_code)]\n"      # not doc lines
     if f["skip"]: s += ind + "#[codec(skip)]\n"
     if f["compact"]: s += ind + "#[codec(compact)]\n"
     if f.get("encoded_as"): s += ind + '#[codec(encoded_as = "%s")]\n' % f["encoded_as"][0]
@@ -263,9 +274,9 @@ def decl_src(d, with_codec):
             s += docs_src(v["docs"], "    ", d.get("doc_attr"))
             # several separate #[codec(..)] attributes on one variant, in both orders
             first_index = v["cindex"] and (len(v["name"]) + (v["cindex"][0] if v["cindex"] else 0)) % 2 == 1
-            if v["cindex"] and first_index: s += "    #[codec(index = %d)]\n" % v["cindex"][0]
+            if v["cindex"] and first_index: s += "    #[codec(index = %s)]\n" % lit(v["cindex"][0], v["cindex"][0] + len(d["name"]))
             if v["skip"]: s += "    #[codec(skip)]\n"
-            if v["cindex"] and not first_index: s += "    #[codec(index = %d)]\n" % v["cindex"][0]
+            if v["cindex"] and not first_index: s += "    #[codec(index = %s)]\n" % lit(v["cindex"][0], v["cindex"][0] + len(d["name"]))
             s += "    " + v["name"] + body_src(v["shape"], v["fields"], d, "    ", False, with_codec) + (" = %d" % v["discr"][0] if v["discr"] else "") + ",\n"
         s += "}\n"
     return s
